@@ -290,7 +290,22 @@ def directed_cases(out, rng):
     def scalarish(x: Float[jax.Array, ""], y: Float[jax.Array, "..."], z: Int[jax.Array, "*b"]) -> Float[jax.Array, ""]:
         return x
 
+    # a PARAMETER named like an axis used in a symbolic expression: `n+1` is about the axis size, never about the
+    # parameter's value
+    @jaxtyped(typechecker=tc)
+    def pad(n: Int[jax.Array, ""], x: Float[jax.Array, "n"]) -> Float[jax.Array, "n+1"]:
+        return jnp.zeros((x.shape[0] + 1,), jnp.float32)
+
+    @jaxtyped(typechecker=tc)
+    def twice(x: Float[jax.Array, "a b"], a: Float[jax.Array, "b"], b: Int[jax.Array, "a"]) -> Float[jax.Array, "a*b 2*a"]:
+        return jnp.zeros((x.shape[0] * x.shape[1], 2 * x.shape[0]), jnp.float32)
+
     cases = [
+        ("parameter named like an axis, value 0", pad, (jnp.asarray(0, jnp.int32), f3), "accept"),
+        ("parameter named like an axis, value 3", pad, (jnp.asarray(3, jnp.int32), f3), "accept"),
+        ("parameter named like an axis, value 7", pad, (jnp.asarray(7, jnp.int32), f4), "accept"),
+        ("parameters named like both axes", twice, (jnp.ones((2, 3), jnp.float32), jnp.full((3,), 5.0, jnp.float32), jnp.full((2,), 9, jnp.int32)), "accept"),
+        ("parameters named like both axes, wrong size", twice, (jnp.ones((2, 3), jnp.float32), jnp.zeros((4,), jnp.float32), jnp.zeros((2,), jnp.int32)), "reject"),
         ("float-then-key", noisy, (f3, key), "accept"),
         ("float-then-key, wrong key dtype", noisy, (f3, i3), "reject"),
         ("key-float-int", keys_first, (key2, f3, i3), "accept"),
